@@ -32,8 +32,8 @@ def run(ctx):
         return
     # free-running ThreadSanitizer companion (real threads): no unsynchronised sharing on the error/close paths either
     import os
-    ctx.run_harness(exes["h07tsan"], ["--iterations", "1" if ctx.tier == "quick" else "20"],
-                    env={"TSAN_OPTIONS": "halt_on_error=0:exitcode=66:suppressions=" + os.path.join(os.path.dirname(os.path.dirname(ctx.checkdir)), "engine", "vsched", "tsan.supp")}, timeout=150)
+    ctx.run_harness(exes["h07tsan"], ["--iterations", "1" if ctx.tier == "quick" else "20", "--deadline", "45" if ctx.tier == "quick" else "300"],
+                    env={"TSAN_OPTIONS": "halt_on_error=0:exitcode=66:suppressions=" + os.path.join(os.path.dirname(os.path.dirname(ctx.checkdir)), "engine", "vsched", "tsan.supp")}, timeout=120 if ctx.tier == "quick" else 500)
     # slow consumer on a saturated pipeline (tiny parser buffers: parser blocked on the full osmdata queue, read thread on the full input queue)
     ctx.run_harness(exes["h07sat"], ["--saturate"])
     ctx.run_harness(exes["h07"], [])
